@@ -134,7 +134,7 @@ class ImageBatch(DataTensor):
                 split_grids = []
                 split_size_or_sections = args[1]
                 if isinstance(split_size_or_sections, int):
-                    for start in range(0, len(grids), split_size_or_sections):
+                    for start in range(0, max(len(grids), 1), split_size_or_sections):
                         split_grids.append(grids[start : start + split_size_or_sections])
                 elif isinstance(split_size_or_sections, Sequence):
                     start = 0
